@@ -17,10 +17,21 @@ structure QueueLaw {Q : Type} (ops : QueueOps Q) where
   pop : ∀ b q y q', ops.pop b q = some (y, q') → mem q y ∧ ∀ x, mem q' x → mem q x
   reinit : ∀ b q x, mem (ops.reinit b q) x → mem q x
 
+def isWorldOutput : OutPoint → Bool
+  | OutPoint.u _ => true
+  | _ => false
+
+theorem isWorldOutput_iff {op : OutPoint} (h : isWorldOutput op = true) : ∃ k, op = OutPoint.u k := by
+  cases op with
+  | u k => exact ⟨k, rfl⟩
+  | p j i => simp [isWorldOutput] at h
+  | x n => simp [isWorldOutput] at h
+  | null => simp [isWorldOutput] at h
+
 /-- Well-formedness of the abstract pool (what transaction sanity and the abstraction guarantee). -/
 structure PoolOk (pool : List Tx) : Prop where
   /-- only world outputs are on the chain (pool transactions are not mined yet) -/
-  chainOnlyU : ∀ t ∈ pool, ∀ i ∈ t.ins, i.chain.isSome = true → ∃ k, i.op = OutPoint.u k
+  chainOnlyU : ∀ t ∈ pool, ∀ i ∈ t.ins, i.chain.isSome = true → isWorldOutput i.op = true
   /-- all inputs referring to one outpoint carry the same chain information -/
   consistent : ∀ t ∈ pool, ∀ t' ∈ pool, ∀ i ∈ t.ins, ∀ i' ∈ t'.ins, i.op = i'.op → i.chain = i'.chain
   /-- `CheckTransactionSanity`: no duplicate inputs, at least one input -/
@@ -35,6 +46,19 @@ structure EnvOk (e : Env) : Prop where
   maxU32 : e.maxWeight < U32
   cbSig : e.cbSigCost ≤ MAX_BLOCK_SIGOPS_COST
 
+/-- Decidable form of "the source reports the real fee": the fee of every transaction whose inputs
+all exist (on the chain or as outputs of pool transactions) is inputs − outputs. -/
+def honestFeesB (e : Env) (pool : List Tx) : Bool :=
+  pool.all (fun t => match inputsValue e pool (List.range pool.length) t.ins with
+    | some total => decide (t.fee = (total : Int) - (sumOuts t : Int))
+    | none => true)
+
+/-- Decidable form of "the source does not overstate any fee". -/
+def feesNotOverstatedB (e : Env) (pool : List Tx) : Bool :=
+  pool.all (fun t => match inputsValue e pool (List.range pool.length) t.ins with
+    | some total => decide (t.fee ≤ (total : Int) - (sumOuts t : Int))
+    | none => true)
+
 /-- The source reports the real fee of every transaction. -/
 def HonestFees (e : Env) (pool : List Tx) : Prop :=
   ∀ t ∈ pool, ∀ earlier total, inputsValue e pool earlier t.ins = some total →
@@ -44,6 +68,64 @@ def HonestFees (e : Env) (pool : List Tx) : Prop :=
 def FeesNotOverstated (e : Env) (pool : List Tx) : Prop :=
   ∀ t ∈ pool, ∀ earlier total, inputsValue e pool earlier t.ins = some total →
     t.fee ≤ (total : Int) - (sumOuts t : Int)
+
+theorem inputValue_range (e : Env) (pool : List Tx) (earlier : List Nat) (op : OutPoint) (v : Nat)
+    (h : inputValue e pool earlier op = some v) : inputValue e pool (List.range pool.length) op = some v := by
+  cases op with
+  | p j i =>
+    simp only [inputValue] at h ⊢
+    by_cases hc : earlier.contains j = true
+    · simp only [hc, if_true] at h
+      cases hp : pool[j]? with
+      | none => simp [hp] at h
+      | some pt =>
+        have hj : j < pool.length := by
+          rcases List.getElem?_eq_some_iff.1 hp with ⟨hl, _⟩; exact hl
+        have : (List.range pool.length).contains j = true := by simpa using hj
+        simp only [this, if_true]
+        simpa [hp] using h
+    · exfalso
+      simp at h
+      apply hc
+      simpa using h.1
+  | u k => simpa [inputValue] using h
+  | x n => simpa [inputValue] using h
+  | null => simpa [inputValue] using h
+
+theorem inputsValue_range (e : Env) (pool : List Tx) (earlier : List Nat) : ∀ (ins : List Inp) (v : Nat),
+    inputsValue e pool earlier ins = some v → inputsValue e pool (List.range pool.length) ins = some v := by
+  intro ins
+  induction ins with
+  | nil => intro v h; simpa [inputsValue] using h
+  | cons a rest ih =>
+    intro v h
+    simp only [inputsValue] at h ⊢
+    cases h1 : inputValue e pool earlier a.op with
+    | none => simp [h1] at h
+    | some x =>
+      cases h2 : inputsValue e pool earlier rest with
+      | none => simp [h1, h2] at h
+      | some y =>
+        simp only [h1, h2] at h
+        rw [inputValue_range e pool earlier a.op x h1, ih y h2]
+        exact h
+
+theorem honest_of_check {e : Env} {pool : List Tx} (h : honestFeesB e pool = true) : HonestFees e pool := by
+  intro t ht earlier total hv
+  unfold honestFeesB at h
+  rw [List.all_eq_true] at h
+  have := h t ht
+  rw [inputsValue_range e pool earlier t.ins total hv] at this
+  simpa using this
+
+theorem notOverstated_of_check {e : Env} {pool : List Tx} (h : feesNotOverstatedB e pool = true) :
+    FeesNotOverstated e pool := by
+  intro t ht earlier total hv
+  unfold feesNotOverstatedB at h
+  rw [List.all_eq_true] at h
+  have := h t ht
+  rw [inputsValue_range e pool earlier t.ins total hv] at this
+  simpa using this
 
 /-! ## Small facts -/
 
